@@ -240,6 +240,65 @@ def _overrides(variant, seed):
     return O
 
 
+# ----------------------------------------------------------------------------- option menus
+def _option_menu(base, variant, seed):
+    """optional parameter name -> list of alternative values (factories); one option is changed at a
+    time, on top of the default call - code paths (and in-place steps) are often option dependent"""
+    g = rng_for(seed, 'c12opt')
+    spd3 = np.array([[2.0, 0.3, 0.1], [0.3, 1.5, 0.2], [0.1, 0.2, 1.0]])
+    spd4 = np.eye(4) + 0.2
+    methods = {
+        'calc_rdm': ['correlation', 'mahalanobis', 'crossnobis', 'poisson', 'poisson_cv'],
+        'calc_rdm_unbalanced': ['correlation', 'mahalanobis', 'crossnobis', 'poisson', 'poisson_cv'],
+        'calc_rdm_movie': ['correlation', 'mahalanobis', 'poisson'],
+        'compare': ['corr', 'spearman', 'kendall', 'tau-a', 'rho-a', 'cosine_cov', 'corr_cov', 'bures', 'bures_metric'],
+        'pool_rdm': ['corr', 'rho-a', 'cosine_cov', 'corr_cov', 'euclid'],
+    }
+    cov_methods = ['full', 'diag', 'shrinkage_eye']
+    M = {
+        'remove_mean': [lambda: True],
+        'descriptor': [lambda: None, lambda: 'conds'],
+        'cv_descriptor': [lambda: 'fold'],
+        'noise': [lambda: spd3.copy()],
+        'sigma_k': [lambda: spd4.copy()],
+        'normalize': [lambda: False],
+        'ridge_weight': [lambda: 0.5],
+        'boot_noise_ceil': [lambda: False],
+        'random': [lambda: False, lambda: True],
+        'weighting': [lambda: 'equal'],
+        'sort': [lambda: False],
+        'use_correction': [lambda: False],
+        'pattern_idx': [lambda: np.array([0, 1, 1, 3])],
+        'theta': [lambda: None],
+        'dof': [lambda: 5],
+        'weights': [lambda: np.array([1.0, 2.0, 0.5]), lambda: 'w'],
+    }
+    if base in methods:
+        M['method'] = [(lambda m=m: m) for m in methods[base]]
+    elif base.startswith('cov_from') or base.startswith('prec_from'):
+        M['method'] = [(lambda m=m: m) for m in cov_methods]
+    elif base.startswith('eval_') or base.startswith('fit_') or base in ('crossval', 'bootstrap_crossval',
+                                                                        'boot_noise_ceiling', 'cv_noise_ceiling'):
+        M['method'] = [lambda: 'corr']
+    return M
+
+
+def option_variants(qual, kind, owner, fn):
+    """[(param name, k)] for the optional parameters of fn that have a menu"""
+    try:
+        sig = inspect.signature(fn)
+    except (TypeError, ValueError):
+        return []
+    M = _option_menu(qual.split('@')[0], VARIANTS[0], 0)
+    out = []
+    for p in sig.parameters.values():
+        if p.default is inspect._empty or p.name not in M:
+            continue
+        for k in range(len(M[p.name])):
+            out.append([p.name, k])
+    return out
+
+
 # ----------------------------------------------------------------------------- discovery
 def discover():
     """[(qualname, kind, owner, callable)] for public functions and public methods"""
@@ -302,7 +361,7 @@ def _self_factory(cls, variant, seed):
     return None
 
 
-def plan(qual, kind, owner, fn, variant, seed):
+def plan(qual, kind, owner, fn, variant, seed, opt=None):
     """-> (make_call, None) or (None, reason). make_call() returns (args_named: list[(name, value)], thunk)"""
     base = qual.split('@')[0]
     if base in SKIP_FUNCS or qual in SKIP_FUNCS:
@@ -328,7 +387,15 @@ def plan(qual, kind, owner, fn, variant, seed):
         params = params[1:]
     if kind == 'class' and base in ('Model',):
         return None, 'abstract'
+    menu = _option_menu(base, variant, seed) if opt else {}
     for p in params:
+        if opt and p.name == opt[0]:
+            facts.append((p.name, menu[p.name][opt[1]]))
+            if p.name == 'pattern_idx' and 'pattern_descriptor' in [q.name for q in params]:
+                facts.append(('pattern_descriptor', lambda: 'index'))
+            continue
+        if opt and opt[0] == 'pattern_idx' and p.name == 'pattern_descriptor':
+            continue
         if p.kind in (p.VAR_POSITIONAL, p.VAR_KEYWORD):
             if base == 'concat':
                 def other_order():
@@ -485,6 +552,10 @@ def shards(tier, seed):
     for i, (qual, kind, owner, fn) in enumerate(prods):
         for v in VARIANTS:
             out.append({'qual': qual, 'kind': kind, 'variant': list(v)})
+        # one optional parameter changed at a time (list-descriptor variants; thorough: all four)
+        for opt in option_variants(qual, kind, owner, fn):
+            for v in (VARIANTS if tier == 'thorough' else VARIANTS[:1] + VARIANTS[2:3]):
+                out.append({'qual': qual, 'kind': kind, 'variant': list(v), 'opt': opt})
     out.append({'qual': '__coverage__', 'kind': 'meta', 'variant': ['list', False]})
     return out
 
@@ -520,7 +591,7 @@ def run_case(case, ctx):
         ctx.exclude('callable no longer exists')
         return
     _, kind, owner, fn = found
-    make_call, reason = plan(qual, kind, owner, fn, variant, ctx.seed)
+    make_call, reason = plan(qual, kind, owner, fn, variant, ctx.seed, case.get('opt'))
     if make_call is None:
         ctx.count('uncovered:' + reason.split(':')[0].split(' for ')[0])
         return
